@@ -133,7 +133,7 @@ def one(rec, hub, seed, tier, i, tmpdir):
     ex = importlib.import_module("flodym.export")
     helper = importlib.import_module("flodym.export.helper")
     rng = case_nprng(seed, "c19.system", 0, i)
-    d = SY.gen_def(rng, hostile_names=True, max_flows=8, vary_items=True, big_system=0.03)
+    d = SY.gen_def(rng, hostile_names=True, max_flows=8, vary_items=True, big_system=0.03, lookalike_dim_names=0.15)
     for s_ in d.stocks:
         s_["name"] = s_["name"].replace("None", "nowhere")
     # names must stay distinct after sanitising (the statement's domain)
@@ -413,28 +413,48 @@ def definition_tables(rec, fd, d):
         rec.violation(MDEF, "to_dfs-raised", {"exc": f"{type(e).__name__}: {str(e)[:300]}", "n_flows": len(flows), "n_stocks": len(stocks)})
         return
     kinds = {"dimensions": dimdefs, "processes": d.processes, "flows": flows, "stocks": stocks, "parameters": params}
+    _judge_definition_tables(rec, out, kinds, "")
+    # the same definition object edited in place (every list keeps its length) and exported again: the tables are those of the
+    # definition as it stands
+    try:
+        edited = False
+        for attr in ("flows", "parameters", "stocks", "dimensions"):
+            lst = getattr(definition, attr)
+            if isinstance(lst, list) and len(lst) >= 2 and lst[0] != lst[-1]:
+                lst[0], lst[-1] = lst[-1], lst[0]
+                edited = True
+        if edited:
+            rec.event(MDEF, sig=f"edited|f={len(flows)}|s={len(stocks)}|p={len(params)}", cls="to_dfs|second export after an in-place edit of the definition")
+            out2 = definition.to_dfs()
+            kinds2 = {"dimensions": list(definition.dimensions), "processes": list(definition.processes), "flows": list(definition.flows), "stocks": list(definition.stocks), "parameters": list(definition.parameters)}
+            _judge_definition_tables(rec, out2, kinds2, ":after-in-place-edit")
+    except Exception as e:
+        rec.violation(MDEF, "to_dfs-raised:after-in-place-edit", {"exc": f"{type(e).__name__}: {str(e)[:300]}"})
+
+
+def _judge_definition_tables(rec, out, kinds, suffix):
     exp_keys = [k for k, v in kinds.items() if v]
     if sorted(out.keys()) != sorted(exp_keys):
-        rec.violation(MDEF, "to_dfs-tables-differ-from-non-empty-kinds", {"got": sorted(out.keys()), "expected": sorted(exp_keys)})
+        rec.violation(MDEF, "to_dfs-tables-differ-from-non-empty-kinds" + suffix, {"got": sorted(out.keys()), "expected": sorted(exp_keys)})
         return
     for k in exp_keys:
         df = out[k]
         if len(df) != len(kinds[k]):
-            rec.violation(MDEF, "to_dfs-row-count-differs", {"kind": k, "rows": len(df), "definitions": len(kinds[k])})
+            rec.violation(MDEF, "to_dfs-row-count-differs" + suffix, {"kind": k, "rows": len(df), "definitions": len(kinds[k])})
             continue
         for r, obj in enumerate(kinds[k]):
             row = df.iloc[r]
             fields = {"name": obj} if isinstance(obj, str) else obj.model_dump()
             for fk, fv in fields.items():
                 if fk not in df.columns:
-                    rec.violation(MDEF, "to_dfs-field-column-missing", {"kind": k, "field": fk})
+                    rec.violation(MDEF, "to_dfs-field-column-missing" + suffix, {"kind": k, "field": fk})
                     break
                 cell = row[fk]
                 same = cell == fv if not isinstance(fv, (tuple, list)) else tuple(cell) == tuple(fv)
                 if fv is None:
                     same = cell is None or cell != cell
                 if not same:
-                    rec.violation(MDEF, "to_dfs-cell-differs-from-field", {"kind": k, "field": fk, "got": repr(cell)[:60], "expected": repr(fv)[:60]})
+                    rec.violation(MDEF, "to_dfs-cell-differs-from-field" + suffix, {"kind": k, "field": fk, "got": repr(cell)[:60], "expected": repr(fv)[:60]})
                     break
 
 
